@@ -107,6 +107,14 @@ func (v *Voter) Verify(proposal *hotstuff.ProposeMsg) (err error) {
 	if err := v.auth.VerifyAnyQC(proposal); err != nil {
 		return err
 	}
+	// the block must directly extend the block certified by its (now verified) QC
+	qc := proposal.Block.QuorumCert()
+	if proposal.Block.Parent() != qc.BlockHash() {
+		return fmt.Errorf("block's parent is not the block certified by its quorum certificate")
+	}
+	if qc.View() >= blockView {
+		return fmt.Errorf("block view %d is not higher than the view %d of the certified block", blockView, qc.View())
+	}
 	// ensure the block came from the expected leader.
 	leaderID := v.leaderRotation.GetLeader(blockView)
 	if proposal.ID != leaderID {
